@@ -175,8 +175,27 @@ def r3_least_squares(ctx, rule="R3"):
             oky = True if src == ("param", "data") and not order_args(y) else (False if order_args(y) or src == ("param", "weights") else None)
         ctx.check(rule, "%s|rhs-is-raveled-data|%s" % (qn, tag), oky, "the right-hand side is the C-order ravel of data", bad="the right-hand side is %s" % (show(y)[:60] if y else None), fn=qn)
         sw = kw(f, "sample_weight")
-        ctx.check(rule, "%s|sample_weight|%s" % (qn, tag), True if sw == ("param", "weights") else (False if sw is None or sw == NONE or (isinstance(sw, tuple) and Q.leaves(sw) == {("param", "weights")}) or sw == ("param", "data") else None),
-                  "sample_weight = weights", bad="the regressor is fitted with sample_weight=%s" % (show(sw) if isinstance(sw, tuple) else "None (weights dropped)"), fn=qn)
+        W = ("param", "weights")
+        if isinstance(sw, tuple) and Q.unwrap(sw) == W:
+            oksw = True
+        elif sw is None or sw == NONE:
+            # no sample_weight: the weights are either dropped (definite) or applied by hand to the matrix and the right-hand side, which the
+            # rule cannot certify as equivalent (undecided, not a violation)
+            by_hand = any(W in Q.leaves(a) for a in f[2] if isinstance(a, tuple))
+            oksw = None if by_hand else False
+            if lookup(p.decided, ("cmp", "is", W, NONE)) is True:
+                oksw = True           # a path on which no weights were given
+        elif isinstance(sw, tuple) and (sw == ("param", "data") or Q.leaves(sw) == {W}):
+            oksw = False          # another array, or a non-identity function of the weights alone (sqrt, rescaling by their own maximum, ...)
+        else:
+            oksw = None
+        ctx.check(rule, "%s|sample_weight|%s" % (qn, tag), oksw, "sample_weight = weights", fn=qn,
+                  bad="the regressor is fitted with sample_weight=%s" % (show(sw) if isinstance(sw, tuple) else "None (weights dropped)"),
+                  undecided="the weights are not passed as sample_weight but applied to the system by hand: equivalence with the weighted problem is not established")
+        if ft:
+            extra = [a for a in t[2][1:]] + [v_ for k_, v_ in t[3] if k_ not in ("y",) or v_ != NONE]
+            ctx.check(rule, "%s|scaler-statistics-from-the-jacobian-only|%s" % (qn, tag), False if extra else True, "the column scales are computed from the Jacobian alone",
+                      bad="fit_transform receives %s besides the Jacobian: the column scaling (and with it the damping penalty) depends on it" % show(extra[0])[:50] if extra else "", fn=qn)
     if n < 2:
         ctx.add(rule, qn + "|paths", "UNDECIDED", "damped and undamped paths not both found", fn=qn)
 
